@@ -228,8 +228,8 @@ Proof.
       apply ser_read_spec in Er as (R1 & R2 & R3 & R4 & R5). sim. split; [congruence|].
       exists b. sim. rewrite R2, W2. split; [reflexivity | congruence]. }
   destruct P1 as [O1 M1].
-  destruct (cut_term term s1) as [[sc rc]|] eqn:Ec.
-  - inversion H; subst sc rc. apply cut_term_Some in Ec as (bb & rest & -> & Hsh & Hcat & ->). sim.
+  destruct (cut_term term s1) as [[sc1 rc]|] eqn:Ec.
+  - inversion H; subst sc1 rc. apply cut_term_Some in Ec as (bb & rest & -> & Hsh & Hcat & ->). sim.
     repeat split; try congruence.
     destruct M1 as (rx & A & B). exists rx. sim. cbn [ret app] in *. rewrite Hcat. split; assumption.
   - apply ser_ru_loop_spec in H; [|apply (cut_term_None _ _ Ec)].
